@@ -9,7 +9,7 @@ use vbase::{ensure, fail};
 use crate::lazyhelp::{gen_skip_stress, to_pointer};
 use crate::sx::walk;
 
-pub const RULE: &str = "cases are (document, path set) and (schema, document) pairs. Documents: well-formed duplicate-free generated / skip-stress documents. Path sets: drawn from the reference tree by generated choices — subsets of valid paths, shared prefixes, a path that is a prefix of another, repeated paths, the root path, missing keys under objects and out-of-range indices under arrays (shape-consistent by construction). get_many and get_many_unchecked must return tree.size() slots in insertion order; a filled slot equals get(path_i) in text and offset; an empty slot only for a path that fails on a missing key; all slots filled and Ok when every path resolves; equal paths get identical slots; Err only if some path does not resolve. Schemas are generated from the document's object skeleton (kept keys with defaults of every kind, absent keys, nested non-empty and empty object schemas, type-mismatched positions); get_by_schema must equal the reference merge (order-insensitive). Non-trivial = >= 2 paths sharing a prefix, a repeated path or a prefix-and-target pair; schema with an absent key and a nested non-empty object; distinct by case bytes.";
+pub const RULE: &str = "cases are (document, path set) and (schema, document) pairs. Documents: well-formed duplicate-free generated / skip-stress documents and arrays of 65..200 elements (indices >= 64). Path sets: drawn from the reference tree by generated choices — subsets of valid paths, shared prefixes, a path that is a prefix of another, repeated paths, the root path, missing keys under objects and out-of-range indices under arrays (shape-consistent by construction). get_many and get_many_unchecked must return tree.size() slots in insertion order; a filled slot equals get(path_i) in text and offset; an empty slot only for a path that fails on a missing key; all slots filled and Ok when every path resolves; equal paths get identical slots; Err only if some path does not resolve. Schemas are generated from the document's object skeleton (kept keys with defaults of every kind, absent keys, nested non-empty and empty object schemas, type-mismatched positions); get_by_schema must equal the reference merge (order-insensitive) and, with numbers compared through as_raw_number, the merge of the parsed document into the schema (so in the arbitrary_precision build the literals are kept). Non-trivial = >= 2 paths sharing a prefix, a repeated path or a prefix-and-target pair; schema with an absent key and a nested non-empty object; distinct by case bytes.";
 pub const ASSUMPTIONS: &[&str] = &["refjson parser / lookup", "path sets mixing key and index children under one prefix are outside the quantifier and not generated", "get (single path) is checked against the reference in C10"];
 
 fn split_case(case: &[u8]) -> Option<(&[u8], &[u8])> {
@@ -32,7 +32,29 @@ fn join_case(doc: &[u8], rest: &[u8]) -> Vec<u8> {
 
 /// choose a shape-consistent path set from the reference tree
 fn choose_paths(root: &Node, src: &mut Src) -> Vec<Vec<PathElem>> {
-    let all = root.all_paths(48);
+    let mut all = root.all_paths(48);
+    // wide containers: the cap above never reaches their far end
+    if let Some(last) = root.last_paths(6) {
+        all.extend(last);
+    }
+    for p in all.clone().iter().take(48) {
+        if let Some(Kind::Arr(v)) = root.lookup(p).map(|n| &n.kind) {
+            if v.len() > 64 {
+                for i in [64, 65, 63, v.len() - 1, 64 + (v.len() - 64) / 2, 127.min(v.len() - 1), 128.min(v.len() - 1)] {
+                    let mut q = p.clone();
+                    q.push(PathElem::Idx(i));
+                    if let Some(Kind::Arr(w)) = root.lookup(&q).map(|n| &n.kind) {
+                        if !w.is_empty() {
+                            let mut r = q.clone();
+                            r.push(PathElem::Idx(w.len() - 1));
+                            all.push(r);
+                        }
+                    }
+                    all.push(q);
+                }
+            }
+        }
+    }
     let n = 1 + src.below(7);
     let mut out: Vec<Vec<PathElem>> = Vec::new();
     for _ in 0..n {
@@ -253,6 +275,29 @@ pub fn oracle_schema(case: &[u8], obs: &mut Obs) -> Result<(), Fail> {
     let g = norm_neg_zero(&walk(&got, false)).sorted();
     let w = norm_neg_zero(&want).sorted();
     ensure!(g == w, "C11/schema/wrong-result", "get_by_schema = {}, expected {}; {}", refjson::trunc(&g.dump(), 300), refjson::trunc(&w.dump(), 300), obs.render.clone().unwrap_or_default());
+    // the replaced members are the document's values in the representation a parse of the document
+    // gives them (raw number literals in the arbitrary_precision build): merge on the DOM and compare
+    // with numbers reported through as_raw_number
+    let dom: Value = sonic_rs::from_str(s).map_err(|e| Fail::new("C11/generator", format!("document does not parse: {e}")))?;
+    fn dom_merge(schema: &Value, doc: &Value) -> Value {
+        use sonic_rs::JsonContainerTrait;
+        match (schema.as_object(), doc.as_object()) {
+            (Some(so), Some(d)) if !so.is_empty() => {
+                let mut out = sonic_rs::Object::new();
+                for (k, sx) in so.iter() {
+                    match d.get(&k) {
+                        Some(dx) => out.insert(&k, dom_merge(sx, dx)),
+                        None => out.insert(&k, sx.clone()),
+                    };
+                }
+                Value::from(out)
+            }
+            _ => doc.clone(),
+        }
+    }
+    let want_dom = dom_merge(&schema, &dom);
+    let (gr, wr) = (walk(&got, true).sorted(), walk(&want_dom, true).sorted());
+    ensure!(gr == wr, "C11/schema/representation", "get_by_schema = {}, but merging the parsed document into the schema gives {}; {}", refjson::trunc(&gr.dump(), 300), refjson::trunc(&wr.dump(), 300), obs.render.clone().unwrap_or_default());
     // the byte-slice carrier gives the same result
     let got2 = sonic_rs::get_by_schema(doc, schema).map_err(|e| Fail::new("C11/schema/fails", format!("get_by_schema(&[u8]) failed: {e}")))?;
     ensure!(got2 == got, "C11/schema/carriers-disagree", "get_by_schema over &str and &[u8] differ; {}", obs.render.clone().unwrap_or_default());
@@ -275,6 +320,26 @@ pub fn run(ctx: &Ctx) {
             join_case(&doc, &rest)
         });
     }
+    // wide arrays: indices beyond 64, alone and next to siblings congruent modulo 64
+    ctx.search(&subs[0], "wide-arrays", ctx.n(60_000, 600_000), 300, &|src: &mut Src| {
+        let n = *src.pick(&[65usize, 66, 70, 100, 129, 130, 200]);
+        let mut doc = if src.bool() { b"[".to_vec() } else { b"{\"a\":[".to_vec() };
+        let obj = doc[0] == b'{';
+        for i in 0..n {
+            if i > 0 {
+                doc.push(b',');
+            }
+            match src.below(5) {
+                0 => doc.extend_from_slice(format!("[{i},{i}]").as_bytes()),
+                1 => doc.extend_from_slice(format!("{{\"i\":{i}}}").as_bytes()),
+                2 => doc.extend_from_slice(format!("\"s{i}\"").as_bytes()),
+                _ => doc.extend_from_slice(format!("{i}").as_bytes()),
+            }
+        }
+        doc.extend_from_slice(if obj { b"],\"z\":1}" } else { b"]" });
+        let rest = src.take(24);
+        join_case(&doc, &rest)
+    });
     let pc = DocParams { ws: 1, max_depth: 6, max_items: 5, ..DocParams::default() };
     ctx.search(&subs[1], "schemas", ctx.n(800_000, 8_000_000), 900, &move |src: &mut Src| {
         // object-rooted documents
